@@ -99,6 +99,8 @@ def main(pid="C06"):
             classes = {c["avail"][a]["cls"] for a in wrong}
             if classes and "" not in classes and len(classes) == 1:
                 b["cls"] = classes.pop()
+    for cid, why in c01.CRASHED.items():
+        bad.append({"case": cid, "conjunct": "runs-to-completion", "cls": "", "detail": f"program={byid[cid]['prog']} {why}"})
     for cid in dropped:
         bad.append({"case": cid, "conjunct": "compiles", "cls": "", "detail": f"program={byid[cid]['prog']} diag={[d['message'][:140] for d in dropped[cid]][:2]}"})
 
